@@ -1768,3 +1768,372 @@ func snifferStreamUses(c *Ctx) {
 	c.check(len(bad) == 0 && uses > 0, R, d.name, c.P.Pos(badPos), fmt.Sprintf("%d uses of the stream: decoders, scanners and rewinds only", uses),
 		fmt.Sprintf("the sniffer reads raw bytes of the stream itself (%s): what it decides then depends on the byte layout — leading white space, a byte-order mark, key order — and a document the JSON decoder accepts is no longer detected", strings.Join(bad, "; ")))
 }
+
+// searchOffsetBounded: an index found by a search (bytes/strings Index, IndexAny, IndexByte, …) is
+// at most len(s)-1. Reading s[i+k] for a constant k ≥ 1 is therefore in range only where a
+// condition relates i+k to len(s); the typical slip is the look-ahead for the second byte of a
+// two-byte terminator when the first byte is the last one buffered.
+func searchOffsetBounded(c *Ctx, rule string, pkgs ...string) {
+	c.rule(rule, "in the parser-side packages every read s[i+k] (k a positive constant, i the result of an Index-family search in s) is dominated by a condition that mentions len(s) together with i; functions used as values (scanner split functions) are included")
+	n := 0
+	for _, rel := range pkgs {
+		pk := c.P.pkg(rel)
+		if pk == nil {
+			continue
+		}
+		for _, file := range pk.Syntax {
+			for _, dd := range file.Decls {
+				fd, ok := dd.(*ast.FuncDecl)
+				if !ok || fd.Body == nil {
+					continue
+				}
+				obj, _ := pk.TypesInfo.Defs[fd.Name].(*types.Func)
+				if obj == nil {
+					continue
+				}
+				d := &declInfo{fd: fd, pkg: pk, obj: obj, name: objName(obj)}
+				defs := singleDefs(pk, fd.Body)
+				k := 0
+				ast.Inspect(fd.Body, func(x ast.Node) bool {
+					ix, ok := x.(*ast.IndexExpr)
+					if !ok {
+						return true
+					}
+					be, isBE := ast.Unparen(ix.Index).(*ast.BinaryExpr)
+					if !isBE || be.Op != token.ADD {
+						return true
+					}
+					v, isC := constOf(pk, be.Y)
+					if !isC || !v.isInt() || v.int() < 1 {
+						return true
+					}
+					io := objOf(pk, be.X)
+					if io == nil {
+						return true
+					}
+					def, has := defs[io]
+					if !has {
+						return true
+					}
+					call, isCall := ast.Unparen(def).(*ast.CallExpr)
+					if !isCall || len(call.Args) < 1 {
+						return true
+					}
+					f, _ := typeutil.Callee(pk.TypesInfo, call).(*types.Func)
+					if f == nil || f.Pkg() == nil || (f.Pkg().Path() != "bytes" && f.Pkg().Path() != "strings") || !strings.HasPrefix(f.Name(), "Index") && !strings.HasPrefix(f.Name(), "LastIndex") {
+						return true
+					}
+					sText := normText(exprText(c.P.Fset, ix.X))
+					if normText(exprText(c.P.Fset, call.Args[0])) != sText {
+						return true
+					}
+					k++
+					n++
+					// a condition on the way that relates the index to len(s)
+					guarded := false
+					lenText := "len(" + sText + ")"
+					chain := enclosing(fd.Body, ix)
+					for i, y := range chain {
+						switch s := y.(type) {
+						case *ast.IfStmt:
+							if i+1 < len(chain) && chain[i+1] == ast.Node(s.Body) {
+								t := normText(exprText(c.P.Fset, s.Cond))
+								if strings.Contains(t, lenText) && strings.Contains(t, io.Name()) {
+									guarded = true
+								}
+							}
+						case *ast.BinaryExpr:
+							if s.Op == token.LAND && i+1 < len(chain) && chain[i+1] == ast.Node(s.Y) {
+								t := normText(exprText(c.P.Fset, s.X))
+								if strings.Contains(t, lenText) && strings.Contains(t, io.Name()) {
+									guarded = true
+								}
+							}
+						case *ast.BlockStmt:
+							for _, st := range s.List {
+								if i+1 < len(chain) && (st == chain[i+1] || st.Pos() > ix.Pos()) {
+									break
+								}
+								if ifs, isIf := st.(*ast.IfStmt); isIf && ifs.Else == nil && terminates(ifs.Body) {
+									t := normText(exprText(c.P.Fset, ifs.Cond))
+									if strings.Contains(t, lenText) && strings.Contains(t, io.Name()) {
+										guarded = true
+									}
+								}
+							}
+						}
+					}
+					c.check(guarded, rule, fmt.Sprintf("%s#search-offset@%d", d.name, k), c.P.Pos(ix.Pos()), "the look-ahead is bounded by len("+sText+")",
+						fmt.Sprintf("%s reads %s where %s is the position %s found: when the match is the last element, %s is out of range and the parser panics instead of returning an error", d.name, exprText(c.P.Fset, ix), io.Name(), exprText(c.P.Fset, call), exprText(c.P.Fset, ix.Index)))
+					return true
+				})
+			}
+		}
+	}
+	if n == 0 {
+		c.okTrivial(rule, "none", "-", "no look-ahead past a search result in the parser-side packages")
+	}
+}
+
+// lookupReturnsElement: Union and Intersect merge the second operand's targets into the edge that
+// GetEdgeByType finds in the result. That only changes the result if the edge returned *is* the
+// element of the list — a copy absorbs the merge and the targets are lost.
+func lookupReturnsElement(c *Ctx, fname string) {
+	const R = "lookup-returns-element"
+	c.rule(R, "every non-nil return of GetEdgeByType is the ranged element of the receiver's Edges itself (the range value or Edges[i]), never the result of a call")
+	d := c.decl(R, fname)
+	if d == nil {
+		return
+	}
+	n := 0
+	ast.Inspect(d.fd.Body, func(x ast.Node) bool {
+		if _, isLit := x.(*ast.FuncLit); isLit {
+			return false // predicates handed to search helpers return booleans of their own
+		}
+		rs, ok := x.(*ast.ReturnStmt)
+		if !ok || len(rs.Results) != 1 || isNilIdent(d.pkg, rs.Results[0]) {
+			return true
+		}
+		n++
+		r := ast.Unparen(rs.Results[0])
+		okElem := false
+		switch e := r.(type) {
+		case *ast.Ident:
+			for _, en := range enclosing(d.fd.Body, rs) {
+				if rg, isR := en.(*ast.RangeStmt); isR && rg.Value != nil && objOf(d.pkg, rg.Value) == objOf(d.pkg, e) {
+					okElem = true
+				}
+			}
+			if !okElem {
+				// a local bound to an element: e := nl.Edges[i]
+				if def, has := singleDefs(d.pkg, d.fd.Body)[objOf(d.pkg, e)]; has {
+					if _, isIx := ast.Unparen(def).(*ast.IndexExpr); isIx {
+						okElem = true
+					}
+				}
+			}
+		case *ast.IndexExpr:
+			okElem = true
+		}
+		c.check(okElem, R, fmt.Sprintf("%s#return@%d", fname, n), c.P.Pos(rs.Pos()), "returns the list's own element",
+			fmt.Sprintf("%s returns %s instead of the element of the list: Union and Intersect merge the second operand's targets into what this returns, so with a copy those targets never reach the result (and A∩B differs from B∩A)", fname, exprText(c.P.Fset, r)))
+		return true
+	})
+	if n == 0 {
+		c.undecided(R, fname, c.P.Pos(d.fd.Pos()), "no non-nil return found")
+	}
+}
+
+// madeWithLengthThenAppended: `x = make([]T, n)` followed by `x = append(x, …)` leaves n zero
+// values in front of the appended elements (the capacity was meant).
+func madeWithLengthThenAppended(c *Ctx, rule string, ds []*declInfo) {
+	c.rule(rule, "no slice created with make([]T, n) (length n, no separate capacity, n not the constant 0) is afterwards extended with append in the same function without ever being assigned by index: the copy would start with n zero values")
+	n := 0
+	for _, d := range ds {
+		if d.fd.Body == nil {
+			continue
+		}
+		k := 0
+		ast.Inspect(d.fd.Body, func(x ast.Node) bool {
+			as, ok := x.(*ast.AssignStmt)
+			if !ok || len(as.Lhs) != len(as.Rhs) {
+				return true
+			}
+			for i, r := range as.Rhs {
+				ce, isCall := r.(*ast.CallExpr)
+				if !isCall || len(ce.Args) != 2 {
+					continue
+				}
+				if id, isId := ce.Fun.(*ast.Ident); !isId || id.Name != "make" {
+					continue
+				}
+				if t := d.pkg.TypesInfo.TypeOf(ce.Args[0]); t == nil {
+					continue
+				} else if _, isSlice := t.Underlying().(*types.Slice); !isSlice {
+					continue
+				}
+				if v, isC := constOf(d.pkg, ce.Args[1]); isC && v.isInt() && v.int() == 0 {
+					continue
+				}
+				target := normText(exprText(c.P.Fset, as.Lhs[i]))
+				appended, indexed := false, false
+				ast.Inspect(d.fd.Body, func(y ast.Node) bool {
+					a2, ok2 := y.(*ast.AssignStmt)
+					if !ok2 || a2.Pos() <= as.Pos() {
+						return true
+					}
+					for j, l := range a2.Lhs {
+						lt := normText(exprText(c.P.Fset, l))
+						if ix, isIx := l.(*ast.IndexExpr); isIx && normText(exprText(c.P.Fset, ix.X)) == target {
+							indexed = true
+						}
+						if lt == target && j < len(a2.Rhs) {
+							if c2, isC2 := a2.Rhs[j].(*ast.CallExpr); isC2 {
+								if id2, isId2 := c2.Fun.(*ast.Ident); isId2 && id2.Name == "append" && len(c2.Args) >= 1 && normText(exprText(c.P.Fset, c2.Args[0])) == target {
+									appended = true
+								}
+							}
+						}
+					}
+					return true
+				})
+				// copy(x, …) fills by position as well
+				for _, cs := range callsIn(d.pkg, d.fd.Body) {
+					if cs.callee.Name() == "copy" && len(cs.call.Args) == 2 && normText(exprText(c.P.Fset, cs.call.Args[0])) == target {
+						indexed = true
+					}
+				}
+				ast.Inspect(d.fd.Body, func(y ast.Node) bool {
+					if ce2, isCE := y.(*ast.CallExpr); isCE && len(ce2.Args) == 2 {
+						if id2, isId2 := ce2.Fun.(*ast.Ident); isId2 && id2.Name == "copy" && normText(exprText(c.P.Fset, ce2.Args[0])) == target {
+							indexed = true
+						}
+					}
+					return true
+				})
+				k++
+				n++
+				c.check(!(appended && !indexed), rule, fmt.Sprintf("%s#make@%d", d.name, k), c.P.Pos(as.Pos()), "filled by index or not appended to",
+					fmt.Sprintf("%s creates %s with make(…, %s) — a length, not a capacity — and then appends to it: the result starts with that many zero values (nil entries) before the real elements", d.name, target, exprText(c.P.Fset, ce.Args[1])))
+			}
+			return true
+		})
+	}
+	if n == 0 {
+		c.okTrivial(rule, "none", "-", "no make([]T, n) with a non-zero length in scope")
+	}
+}
+
+// snifferDecodesValues: what the sniffer compares are decoded JSON values. A member captured as a
+// raw token (json.RawMessage, []byte, interface{}) still carries its spelling — escapes such as
+// "1.5", or number vs string — so two encodings of the same document are told apart.
+func snifferDecodesValues(c *Ctx) {
+	const R = "sniffer-compares-decoded-values"
+	c.rule(R, "every field of the struct SniffReader hands to the JSON decoder has a basic type (string, number, bool): no json.RawMessage, byte slice or interface member whose raw spelling could be compared")
+	d := c.decl(R, "formats.(*Sniffer).SniffReader")
+	if d == nil {
+		return
+	}
+	n := 0
+	for _, cs := range callsIn(d.pkg, d.fd.Body) {
+		full := cs.callee.FullName()
+		if full != "(*encoding/json.Decoder).Decode" && full != "encoding/json.Unmarshal" {
+			continue
+		}
+		arg := cs.call.Args[len(cs.call.Args)-1]
+		t := d.pkg.TypesInfo.TypeOf(arg)
+		if p, ok := t.(*types.Pointer); ok {
+			t = p.Elem()
+		}
+		st, ok := t.Underlying().(*types.Struct)
+		if !ok {
+			c.undecided(R, d.name+"#target", c.P.Pos(cs.call.Pos()), "the decoder target is not a struct")
+			continue
+		}
+		for i := 0; i < st.NumFields(); i++ {
+			f := st.Field(i)
+			n++
+			_, isBasic := f.Type().Underlying().(*types.Basic)
+			c.check(isBasic, R, d.name+"#"+f.Name(), c.P.Pos(f.Pos()), f.Name()+" is decoded into a "+f.Type().String(),
+				fmt.Sprintf("the sniffer keeps %s as %s, the raw spelling of the member: comparing it distinguishes encodings of the same value (\"1\\u002e5\" vs \"1.5\"), so detection depends on the JSON layout", f.Name(), f.Type().String()))
+		}
+	}
+	if n == 0 {
+		c.undecided(R, d.name, c.P.Pos(d.fd.Pos()), "no JSON decoder call found in SniffReader")
+	}
+}
+
+// noGoroutines: the order in which goroutines deliver their results is decided by the scheduler.
+// A driver that fans work out and collects results from a channel (or under a lock) builds its
+// output in arrival order; wherever that order matters (last store wins for a repeated key,
+// first element selected) two runs on the same input differ. The drivers are sequential.
+func noGoroutines(c *Ctx, rule string, ds []*declInfo, what string) {
+	c.rule(rule, "no function reachable from the "+what+" starts a goroutine or selects over channels: results are produced in program order")
+	n := 0
+	for _, d := range ds {
+		var pos token.Pos
+		kind := ""
+		ast.Inspect(d.fd.Body, func(x ast.Node) bool {
+			switch s := x.(type) {
+			case *ast.GoStmt:
+				if !pos.IsValid() {
+					pos, kind = s.Pos(), "starts a goroutine"
+				}
+			case *ast.SelectStmt:
+				if !pos.IsValid() {
+					pos, kind = s.Pos(), "selects over channels"
+				}
+			}
+			return true
+		})
+		if kind != "" {
+			n++
+			c.bad(rule, d.name, c.P.Pos(pos), fmt.Sprintf("%s %s: the order in which concurrent workers deliver their results is decided by the scheduler, so whatever is built from them in arrival order (a repeated key where the last store wins, a list) differs between two runs on the same input", d.name, kind))
+		}
+	}
+	if n == 0 {
+		c.okTrivial(rule, what, "-", fmt.Sprintf("%d functions, none starts a goroutine", len(ds)))
+	}
+}
+
+// mergeAppendsOnlyAbsent: Union and Add keep the node set a set. A node of the second operand is
+// appended to the result only where its identifier is known to be absent from the node index of
+// the result so far — by that test alone. A further condition on the "already there" side (same
+// type, equal content) sends nodes that are there down the append branch: the identifier appears
+// twice.
+func mergeAppendsOnlyAbsent(c *Ctx, fnames ...string) {
+	const R = "merge-appends-only-absent"
+	c.rule(R, "in Union and Add an element of the second operand's Nodes is appended to the result's Nodes only where a negative lookup of its identifier in the node index of the result holds (membership facts with polarity; `ok && extra` on the positive side gives no negative fact for the else branch)")
+	for _, fname := range fnames {
+		d := c.decl(R, fname)
+		if d == nil {
+			continue
+		}
+		_, par := recvAndParam(d)
+		n := 0
+		ast.Inspect(d.fd.Body, func(x ast.Node) bool {
+			as, ok := x.(*ast.AssignStmt)
+			if !ok || len(as.Lhs) != 1 || len(as.Rhs) != 1 {
+				return true
+			}
+			sel, isSel := as.Lhs[0].(*ast.SelectorExpr)
+			if !isSel || sel.Sel.Name != "Nodes" {
+				return true
+			}
+			ce, isCall := as.Rhs[0].(*ast.CallExpr)
+			if !isCall {
+				return true
+			}
+			if id, isId := ce.Fun.(*ast.Ident); !isId || id.Name != "append" {
+				return true
+			}
+			// inside a range over the second operand's nodes
+			overArg := false
+			for _, en := range enclosing(d.fd.Body, as) {
+				if rs, isR := en.(*ast.RangeStmt); isR && par != nil {
+					if strings.HasPrefix(normText(exprText(c.P.Fset, rs.X)), par.Name()+".Nodes") {
+						overArg = true
+					}
+				}
+			}
+			if !overArg {
+				return true
+			}
+			n++
+			absent := false
+			for _, f := range membersAt(d, as) {
+				if !f.present && f.m != nil {
+					if o := originOfIndex(d, f.m); o.kind == "nodes" {
+						absent = true
+					}
+				}
+			}
+			c.check(absent, R, fmt.Sprintf("%s#append@%d", fname, n), c.P.Pos(as.Pos()), "appended only where the identifier is absent from the result's node index",
+				fmt.Sprintf("%s appends a node of the second operand where its identifier is not known to be absent from the node index (the branch is also taken when the lookup succeeds but a further condition fails): a node both operands have is then listed twice instead of being merged", fname))
+			return true
+		})
+		if n == 0 {
+			c.undecided(R, fname, c.P.Pos(d.fd.Pos()), "no append of the second operand's nodes found")
+		}
+	}
+}
